@@ -225,3 +225,17 @@ Definition body_length_var (c : tb_cfg) (s : tb_st) : bytes :=
     | None => []
     end
   end.
+
+(* ---- rule engine modes, as far as the body entry points are concerned ----
+   Off: every entry point returns at its first line.  DetectionOnly: IsRuleEngineOff() is false, so
+   buffering, limits, the self-invoked body phase and the data-error variables are exactly those of On;
+   a disruptive rule of the phase records only tx.detectionOnlyInterruption (Transaction.Interrupt), so
+   tx.interruption stays nil after the phase; setAndReturnBodyLimitInterruption does not look at the
+   mode and still records and returns the 413/500 rejection (finding F12, listed under C02). *)
+Inductive tb_engine := EngOn | EngDetectionOnly | EngOff.
+
+Definition engine_cfg (e : tb_engine) (c : tb_cfg) : tb_cfg :=
+  {| c_dir := c_dir c; c_opt := c_opt c; c_action := c_action c; c_access := c_access c;
+     c_engine_on := match e with EngOff => false | _ => true end;
+     c_bp := c_bp c; c_processable := c_processable c;
+     c_deny := match e with EngOn => c_deny c | _ => false end |}.
